@@ -40,38 +40,54 @@ def run(ctx):
                 fuzz += sorted(os.path.join(p, f) for f in os.listdir(p))
         blist = ctx.path("bases.list")
         R.write_list(blist, bases + fuzz)
-        mlist = ctx.path("mut.list")
-        rc, out = C.harness(["mutate", "--seed", ctx.seed, "--bases", blist, "--outdir", mutdir, "--count", 3000 if quick else 200000, "--list", mlist])
-        _, mhist, _ = C.parse_stats(out)
-        if rc != 0 or not os.path.exists(mlist):
-            ctx.undischarged.append("harness mutate crashed: " + out[-300:])
-            return C.finish(ctx)
-        files = fuzz + open(mlist).read().split()
-        ops, imp, mod = R.run_raw(ctx, files, "malformed")
-        classes = {}
+        # the thorough tier works through its 200 000 corrupted images in batches of 10 000, deleting
+        # each batch before the next is written (disk: a batch is ~3 GB, all at once was ~65 GB)
+        batches = [(ctx.seed, 3000)] if quick else [(ctx.seed + 7919 * k, 10000) for k in range(20)]
+        classes, mhist = {}, {}
         bad = 0
-        for i, (o, a, b) in enumerate(zip(ops, imp, mod)):
-            k = " ".join(a.split(" ")[:2]) if a.startswith("err") else a.split(" ")[0]
-            classes[k] = classes.get(k, 0) + 1
-            if a.startswith("panic") or a == "timeout":
-                # the implementation itself violates the property on this input
-                dst = os.path.join(ctx.replaydir, "input_%d.cfb" % i)
-                shutil.copy(o.split(" ")[2], dst)
-                C.add_violation(ctx, "open:" + a.split(" ")[0], "%s on %s gave %s" % (o.split(" ")[1], dst, a[:200]),
-                                "# C05: the implementation %s\n# replay: harness raw --list <file containing the path below>\n%s\n" % (a[:300], dst),
-                                name="open_%s_%d" % (a.split(" ")[0], i))
-                bad += 1
-            elif a != b and len(ctx.disagreements) < 5:
-                dst = os.path.join(ctx.replaydir, "input_%d.cfb" % i)
-                shutil.copy(o.split(" ")[2], dst)
-                ctx.disagreements.append({"origin": o, "kept_as": dst, "level": "O+L", "implementation": a[:300], "model": b[:300], "theorem": THM})
+        all_ops, all_imp = [], []
+        for bi, (bseed, bcount) in enumerate(batches):
+            shutil.rmtree(mutdir, ignore_errors=True)
+            os.makedirs(mutdir, exist_ok=True)
+            mlist = ctx.path("mut.list")
+            rc, out = C.harness(["mutate", "--seed", bseed, "--bases", blist, "--outdir", mutdir, "--count", bcount, "--list", mlist])
+            _, mh, _ = C.parse_stats(out)
+            for k, v in mh.items():
+                mhist[k] = mhist.get(k, 0) + v
+            if rc != 0 or not os.path.exists(mlist):
+                ctx.undischarged.append("harness mutate crashed: " + out[-300:])
+                return C.finish(ctx)
+            files = (fuzz if bi == 0 else []) + open(mlist).read().split()
+            ops, imp, mod = R.run_raw(ctx, files, "malformed")
+            all_ops += ops[:3] if not all_ops else []
+            all_imp += imp
+            base = bi * 1000000
+            for i, (o, a, b) in enumerate(zip(ops, imp, mod)):
+                k = " ".join(a.split(" ")[:2]) if a.startswith("err") else a.split(" ")[0]
+                classes[k] = classes.get(k, 0) + 1
+                if a.startswith("panic") or a == "timeout":
+                    # the implementation itself violates the property on this input
+                    dst = os.path.join(ctx.replaydir, "input_%d.cfb" % (base + i))
+                    shutil.copy(o.split(" ")[2], dst)
+                    C.add_violation(ctx, "open:" + a.split(" ")[0], "%s on %s gave %s" % (o.split(" ")[1], dst, a[:200]),
+                                    "# C05: the implementation %s\n# replay: harness raw --list <file containing the path below>\n%s\n" % (a[:300], dst),
+                                    name="open_%s_%d" % (a.split(" ")[0], base + i))
+                    bad += 1
+                elif a != b and len(ctx.disagreements) < 5:
+                    dst = os.path.join(ctx.replaydir, "input_%d.cfb" % (base + i))
+                    shutil.copy(o.split(" ")[2], dst)
+                    ctx.disagreements.append({"origin": o, "kept_as": dst, "level": "O+L", "implementation": a[:300], "model": b[:300], "theorem": THM})
+            if ctx.undischarged:
+                break
+        ops, imp = all_ops, all_imp
+        nevals = len(all_imp)
         ctx.coverage.update({
-            "evaluations": len(ops),
+            "evaluations": nevals,
             "distinct_nontrivial": len(set(imp)) if imp else 0,
             "rule": "byte strings = the repository's fuzz regression files + field-level corruptions (1-3 per image) of snapshots taken inside API histories and of synthesised foreign layouts (FAT not in sector 0, sector 0 inside chains, red nodes, gaps): header fields, header DIFAT slots, FAT/MiniFAT cells (self loops, cycles, rho shapes, out of range, every special value), directory entry name length/units/type/colour/links/start sector/size/CLSID/times, truncation and extension around sector boundaries, random bytes; each opened in both modes by the real crate (worker thread, 10 s watchdog, panic capture) followed by walk + whole-stream read of every stream, and by the Lean Raw model; compared on accept/reject + error kind + full logical dump. distinct_nontrivial = distinct result lines of the implementation",
             "samples": ops[:3] + [imp[0][:200]] if ops else [],
             "histogram": dict(classes, **mhist),
-            "traces_validated_against_impl": len(ops),
+            "traces_validated_against_impl": nevals,
         })
     finally:
         R.cleanup(ctx)
